@@ -37,6 +37,14 @@ class Pool:
         fasts = [d for d in ok if d.type == "Fast" and d.length is not None and d.length <= 60]
         self.singles = rng.sample(singles, min(n_single, len(singles)))
         self.fasts = rng.sample(fasts, min(n_fast, len(fasts)))
+        # sibling definitions of the same PGN number travel together: one long-lived decoder must keep them apart
+        for lst, src in ((self.singles, singles), (self.fasts, fasts)):
+            extra = []
+            for d in lst[:3]:
+                sib = [x for x in src if x.pgn == d.pgn and x is not d and x not in lst and x not in extra]
+                if sib:
+                    extra.append(rng.choice(sib))
+            lst.extend(extra)
 
     def payload(self, d):
         for _ in range(20):
